@@ -83,6 +83,14 @@ def base_scenario(r, want=None):
     if r.random() < 0.08:
         argv.append('--include-definitions')
         opts['defs'] = True
+        if r.random() < 0.6:
+            # ... and actually use it: the bundled definitions are included by bare name
+            dn = r.choice(('ST7735S.asm', 'FE310-G002.asm', 'GD32VF103.asm', 'ESP8266.asm'))
+            first = tree['files'][main].split('\n')[0]
+            eol = '\r\n' if first.endswith('\r') else '\n'
+            tree['files'][main] = r.choice(('include %s', 'include "%s"')) % dn + eol + tree['files'][main]
+            if planted and planted[0] == main:
+                planted[1] += 1
     if r.random() < 0.15:
         argv.append(r.choice(('-v', '--verbose')))
         opts['verbose'] = True
